@@ -1,6 +1,7 @@
 import ChiDriver.Common
 import ChiModel.Labels
 import ChiModel.ReducedResize
+import ChiModel.TopLevel
 import ChiDriver.C08
 open Wire ChiModel
 namespace ChiDriver.C17
@@ -48,5 +49,22 @@ def resize : Op
     some [ofStrs (Reduced.restrict c namesNew), .int (Reduced.nFixed c)]
   | _ => none
 
-def ops : List (String × Op) := [("C17.labels", labels), ("C17.resize", resize)]
+/-- `C17.topnames ids bottomNames topNames` → the four name lists (all / top level only, without / with ID
+    prefix), the IDs and the two counts of a hierarchical log-likelihood:
+    `[names, namesWithIds, topNames, topNamesWithIds, ids, n, nTop]` -/
+def topnames : Op
+  | [idsV, bottomV, topV] => do
+    let ids ← idsV.strs?
+    let bottom ← bottomV.strs?
+    let top ← topV.strs?
+    let h : TopLevel.HLL := ⟨ids.map unesc, bottom.map unesc, top.map unesc⟩
+    let out (l : List String) : Val := .list (l.map (fun s => .str (esc s)))
+    some [out (h.parameterNames false false), out (h.parameterNames false true),
+          out (h.parameterNames true false), out (h.parameterNames true true),
+          .list (h.getId.map (fun o => match o with | none => Val.none | some s => .str (esc s))),
+          .int (h.nParameters false), .int (h.nParameters true)]
+  | _ => none
+
+def ops : List (String × Op) :=
+  [("C17.labels", labels), ("C17.resize", resize), ("C17.topnames", topnames)]
 end ChiDriver.C17
